@@ -741,8 +741,10 @@ inductive YRes (α : Type) where
   | imprecise
 deriving Repr
 
+/-- `getScalarValue` (metadata.go:391): the text of a scalar node, whatever its tag
+    (`Gen.Codec.yamlScalarIsNodeText`; any other reading is outside the model) -/
 def scalarOf : Node → Option Bytes
-  | .scalar v => some v
+  | .scalar v => if Gen.Codec.yamlScalarIsNodeText then some v else none
   | _ => none
 
 /-- `mappingParser` (metadata.go:386) -/
